@@ -7,3 +7,26 @@ void sqf::runtime::frame::clear_values_helper(runtime& runtime)
 
     runtime.context_active().clear_values();
 }
+
+bool sqf::runtime::frame::run_ended_helper(runtime& runtime)
+{
+    if (runtime.is_exit_requested())
+    {
+        return true;
+    }
+    if (runtime.configuration().max_runtime != std::chrono::milliseconds::zero() &&
+#ifdef SQFVM_RUNTIME_VERIF
+        runtime.configuration().max_runtime + runtime.run_timestamp() < sqf::runtime::verif::now())
+#else
+        runtime.configuration().max_runtime + runtime.run_timestamp() < std::chrono::system_clock::now())
+#endif
+    {
+        runtime.__logmsg(logmessage::runtime::MaximumRuntimeReached(
+            m_instruction_set.empty() ? sqf::runtime::diagnostics::diag_info{} : diag_info_from_position(), runtime.configuration().max_runtime));
+        runtime.__runtime_error() = false;
+        runtime.log_messages.clear();
+        runtime.exit(0);
+        return true;
+    }
+    return false;
+}
